@@ -1,0 +1,17 @@
+//go:build verif
+
+package rtmp
+
+// VerifSetWChanSize sets the capacity of the asynchronous write queue a ServerSession
+// switches to after publish / play (wChanSize) and returns the previous value, so that the
+// verification harness in /verif can reach "queue full" with a handful of writes.
+func VerifSetWChanSize(n int) (old int) {
+	old = wChanSize
+	wChanSize = n
+	return old
+}
+
+// VerifWChanSize and VerifServerSessionWriteAvTimeoutMs expose the unexported defaults
+// (regenerated into Generated/C15.lean on every run).
+func VerifWChanSize() int                     { return wChanSize }
+func VerifServerSessionWriteAvTimeoutMs() int { return serverSessionWriteAvTimeoutMs }
